@@ -107,7 +107,10 @@ func (m *RuleManager) loadRules() error {
 			toDelete = append(toDelete, k)
 			return
 		}
-		if err := m.adjustRule(&r, ""); err != nil {
+		// A stored rule was matched against the stores when it was accepted. The stores may have changed
+		// since (labels edited, stores removed): that does not make the rule malformed, and the leader that
+		// accepted it keeps serving it, so it must not be deleted from the storage here.
+		if err := m.adjustRuleContent(&r, "", false); err != nil {
 			log.Error("rule is in bad format", zap.String("rule-key", k), zap.String("rule-value", v), errs.ZapError(errs.ErrLoadRule, err))
 			toDelete = append(toDelete, k)
 			return
@@ -157,8 +160,13 @@ func (m *RuleManager) loadGroups() error {
 	})
 }
 
-// check and adjust rule from client or storage.
+// check and adjust rule from client.
 func (m *RuleManager) adjustRule(r *Rule, groupID string) (err error) {
+	return m.adjustRuleContent(r, groupID, true)
+}
+
+// check and adjust rule from client or storage. Only a rule from a client (matchStores) has to match a store.
+func (m *RuleManager) adjustRuleContent(r *Rule, groupID string, matchStores bool) (err error) {
 	r.StartKey, err = hex.DecodeString(r.StartKeyHex)
 	if err != nil {
 		return errs.ErrHexDecodingString.FastGenByArgs(r.StartKeyHex)
@@ -212,7 +220,7 @@ func (m *RuleManager) adjustRule(r *Rule, groupID string) (err error) {
 		}
 	}
 
-	if m.storeSetInformer != nil {
+	if matchStores && m.storeSetInformer != nil {
 		stores := m.storeSetInformer.GetStores()
 		if len(stores) > 0 && !checkRule(r, stores) {
 			return errs.ErrRuleContent.FastGenByArgs(fmt.Sprintf("rule '%s' from rule group '%s' can not match any store", r.ID, r.GroupID))
